@@ -39,6 +39,10 @@ class Tx:
             self.frm, self.to, self.amt = toks[1], toks[2], toks[3]
         elif self.kind == "bvm":
             self.signer, self.contract, self.method, self.args = toks[1], toks[2], toks[3], toks[4:]
+        elif self.kind == "eth":
+            self.signer, self.to, self.amt, self.gas, self.gasprice = toks[1], toks[2], toks[3], toks[4], toks[5]
+        else:
+            self.signer = toks[1] if len(toks) > 1 else None
 
 
 class Rc:
@@ -533,6 +537,13 @@ def mon_c07(h, obs):
                                 continue
                         hits.append(Hit(f"C07/failed-tx-changed-state/{key_class(k)}",
                                         f"block {b.h} (all receipts failed) changed {k}: {d0.get(k)} -> {d1.get(k)}", detail=b.op))
+                    # what the senders lose is the fee, and the fee reaches the admins (up to the rounding of the split): a failed
+                    # transaction destroys no value.  Evaluated when every sender is among the dumped accounts.
+                    if all(("bal/" + s0) in d0 for s0 in senders):
+                        delta = sum(int(d1.get(k, 0)) - int(d0.get(k, 0)) for k in set(d0) | set(d1) if k.startswith("bal/"))
+                        if delta < -(3 * max(1, len(b.txs))):
+                            hits.append(Hit("C07/failed-tx-destroyed-value", f"block {b.h} (all receipts failed): the observed balances lost {-delta} in total "
+                                            f"(the fees of failed transactions go to the admins)", detail=b.op))
         # (c') a view execution leaves nothing in the view ledger either (the next view call would see it)
         if st[0] == "q" and st[1] == "view":
             mv = re.search(r"vstate=(\S+)", st[3])
@@ -594,6 +605,25 @@ def mask_unmodelled(impl, model, ops=None):
                 b = mb.group(1) + " ".join(rb) + mb.group(3)
                 ma = re.match(r"^(h=\d+ rc=\[)(.*?)(\].*)$", a)
                 mb = re.match(r"^(h=\d+ rc=\[)(.*?)(\].*)$", b)
+        if ma and mb and ops is not None and idx < len(ops) and (" eth " in ops[idx]):
+            # Ethereum transactions: the receipt is outside the model (blanked); a successful one changes balances the model
+            # does not follow, so the comparison of the history stops there
+            ra, rb = ma.group(2).split(" "), mb.group(2).split(" ")
+            txs = [t.strip().split(" ") for t in ops[idx][len("block"):].split(" | ")]
+            if len(ra) == len(rb) == len(txs):
+                after_success = False
+                for i, t in enumerate(txs):
+                    if after_success:
+                        ra[i] = rb[i] = "?"        # later transactions of the block see balances the model does not follow
+                    elif t and t[0] == "eth":
+                        if ra[i].startswith("S:"):
+                            stop = True
+                            after_success = True
+                        ra[i] = rb[i] = "?"
+                a = ma.group(1) + " ".join(ra) + ma.group(3)
+                b = mb.group(1) + " ".join(rb) + mb.group(3)
+                ma = re.match(r"^(h=\d+ rc=\[)(.*?)(\].*)$", a)
+                mb = re.match(r"^(h=\d+ rc=\[)(.*?)(\].*)$", b)
         if ma and mb and "F:unmodelled:0" in mb.group(2):
             ra, rb = ma.group(2).split(" "), mb.group(2).split(" ")
             if len(ra) == len(rb):
@@ -602,7 +632,7 @@ def mask_unmodelled(impl, model, ops=None):
                     txs = [t.strip().split(" ") for t in ops[idx][len("block"):].split(" | ")]
                 for i, x in enumerate(rb):
                     if x == "F:unmodelled:0":
-                        if ra[i].startswith("S:") and i < len(txs) and txs[i] and txs[i][0] == "ibtp":
+                        if ra[i].startswith("S:") and i < len(txs) and txs[i] and txs[i][0] in ("ibtp", "eth"):
                             stop = True
                         # a governance operation that succeeded may have changed service / appchain / role records the model
                         # does not follow (getters cannot)
